@@ -1,12 +1,8 @@
-# Per-property configuration for bin/check.
-PROPS = {
-    "C16": dict(
-        lean=["Neutrino.Props.C16"],
-        audit="Neutrino.Audit.C16",
-        drivers=[("lru", "lru")],
-        race=True,
-        trusted=["Go sync.Mutex / sync.Map are atomic per operation", "cache/lru/list.go (container/list copy) behaves as a sequence"],
-        assumptions=["values' Size() is deterministic unless poisoned by the harness",
-                     "the uint64 counter is modelled in Nat; absence of wrap-around is part of the proved invariant"],
-    ),
-}
+# Per-property configuration: one file per property in bin/props.d/Cxx.py defining PROP.
+import os, glob, importlib.util
+PROPS = {}
+for f in sorted(glob.glob(os.path.join(os.path.dirname(os.path.abspath(__file__)), "props.d", "C*.py"))):
+    spec = importlib.util.spec_from_file_location("p_" + os.path.basename(f)[:-3], f)
+    m = importlib.util.module_from_spec(spec)
+    spec.loader.exec_module(m)
+    PROPS[os.path.basename(f)[:-3]] = m.PROP
